@@ -62,6 +62,11 @@ class CallMixin:
             if "object" in ks and a0.dynamic:
                 self.raise_("TypeError", f"abs() at {self.cv.label()}:{node.lineno}")
             return Val(kinds=ks - {"object"} or None, lit=a0.lit)
+        if name == "next" and len(args) == 2:
+            # next(iterator, default) never raises StopIteration; consuming the iterator has its own effects
+            self.iterate(args[0], node)
+            el = self.elem_of(args[0])
+            return el.join(args[1]) if el is not None else args[1]
         if name == "next" and args and isinstance(node.args[0], ast.Call) and dotted(node.args[0].func) == "iter":
             # next(iter(x)) under a test of len(x): the repository's "exactly one element" idiom
             parent = getattr(node, "_parent", None)
